@@ -61,6 +61,14 @@ mod simd_impl {
         x.max(min).min(max)
     }
 
+    /// Divides each lane by `2^k`, rounding toward zero like the scalar `/` operator
+    /// (a plain arithmetic `shr` would round toward negative infinity instead).
+    #[inline]
+    fn div_pow2_simd(x: i16x8, k: i16) -> i16x8 {
+        let bias = x.cmp_lt(i16x8::ZERO) & i16x8::splat((1 << k) - 1);
+        (x + bias).shr(k)
+    }
+
     /// Same as `scalar::up_down_ramp`, but operates on a vector of 8 values in parallel
     #[inline]
     fn up_down_ramp_simd(x: i16x8, strength: i16) -> i16x8 {
@@ -104,9 +112,9 @@ mod simd_impl {
         let c16 = into_simd16(C);
         let d16 = into_simd16(D);
 
-        let d: i16x8 = (a16 - 4 * b16 + 4 * c16 - d16).shr(3);
+        let d: i16x8 = div_pow2_simd(a16 - 4 * b16 + 4 * c16 - d16, 3);
         let d1: i16x8 = up_down_ramp_simd(d, strength as i16);
-        let d2: i16x8 = clipd1_simd((a16 - d16).shr(2), d1.shr(1));
+        let d2: i16x8 = clipd1_simd(div_pow2_simd(a16 - d16, 2), div_pow2_simd(d1, 1));
 
         let res_a = a16 - d2;
         let res_b = clamp_simd(b16 + d1, i16x8::ZERO, i16x8::splat(255));
